@@ -197,6 +197,12 @@ func runC08(c *core.Ctx) error {
 								}
 							}
 						}
+						if be, ok := p.Cond.(*ast.BinaryExpr); ok && be.Op == token.EQL && types.ExprString(be.X) == "p.chr" {
+							if v := pkg.TypesInfo.Types[be.Y].Value; v != nil && v.Kind() == constant.Int {
+								n, _ := constant.Int64Val(v)
+								s.ctx = "chr '" + string(rune(n)) + "'"
+							}
+						}
 						if id, ok := p.Cond.(*ast.Ident); ok && id.Name == "inClass" && i+1 < len(stack) {
 							then := stack[i+1] == ast.Node(p.Body)
 							s.inClassThen = &then
@@ -225,6 +231,19 @@ func runC08(c *core.Ctx) error {
 			}
 		case "case 'S'":
 			want, wantDesc = complement(ecmaWhitespace), "complement of ECMA-262 WhiteSpace ∪ LineTerminator"
+		case "chr '['":
+			// written inside a class in place of the member '['
+			got, err := classDenotation("[" + s.val + "]")
+			if err != nil {
+				r1.Undecided(key, pos, err.Error())
+				continue
+			}
+			if setEq(got, runeSet{{'[', '['}}) {
+				r1.Pass(fmt.Sprintf("%s: %q inside a class denotes exactly '['", key, s.val))
+			} else {
+				r1.Fail(key, pos, fmt.Sprintf("%q inside a class denotes %s, but must denote the single member '['", s.val, got))
+			}
+			continue
 		case "prefix []":
 			want, wantDesc = runeSet{}, "the empty set"
 		case "prefix [^]":
@@ -876,5 +895,34 @@ func checkSpecialClassesFirst(c *core.Ctx, prog *core.Prog, r *core.Rule) {
 	}
 	if bad == 0 {
 		r.Pass(fmt.Sprintf("scanBracket: %d output calls, all after both special-class tests or inside their arms", n))
+	}
+	// '[' inside a class: an ordinary member for ECMA-262, the start of a POSIX class "[:name:]" for RE2. The
+	// member loop must single it out and write it escaped.
+	escaped := false
+	for _, b := range fn.Blocks {
+		iff, ok := b.Instrs[len(b.Instrs)-1].(*ssa.If)
+		if !ok {
+			continue
+		}
+		bo, ok := iff.Cond.(*ssa.BinOp)
+		if !ok || bo.Op != token.EQL {
+			continue
+		}
+		k, ok := bo.Y.(*ssa.Const)
+		if !ok || k.Value == nil || k.Value.Kind() != constant.Int || k.Int64() != '[' {
+			continue
+		}
+		for _, in := range b.Succs[0].Instrs {
+			if call, ok := in.(ssa.CallInstruction); ok && strings.HasSuffix(core.CalleeName(call.Common()), "parser).writeString") {
+				if a, ok := call.Common().Args[len(call.Common().Args)-1].(*ssa.Const); ok && a.Value != nil && constant.StringVal(a.Value) == `\[` {
+					escaped = true
+				}
+			}
+		}
+	}
+	if escaped {
+		r.Pass("scanBracket writes '[' inside a class as \\[ (no POSIX class can form)")
+	} else {
+		r.Fail("class-open-bracket-unescaped", c.Pos(fn.Pos()), "scanBracket copies '[' inside a character class verbatim: RE2 reads \"[:alpha:]\" there as a POSIX class, ECMA-262 as six ordinary members — the pattern runs on the linear engine with another meaning")
 	}
 }
